@@ -129,47 +129,98 @@ fn note_free(size: usize) {
     }
 }
 
+/// Every block carries a red zone of `RZ` bytes behind the part handed to the program; it is checked when the block is
+/// released or resized. A write past the end of a heap block (by up to `RZ` bytes) is therefore seen in every build,
+/// not only under AddressSanitizer.
+const RZ: usize = 32;
+const RZ_BYTE: u8 = 0xC5;
+static OVERRUNS: AtomicUsize = AtomicUsize::new(0);
+static OVERRUN_SIZE: AtomicUsize = AtomicUsize::new(0);
+
+#[inline]
+fn padded(l: Layout) -> Option<Layout> {
+    Layout::from_size_align(l.size().checked_add(RZ)?, l.align()).ok()
+}
+
+#[inline]
+unsafe fn paint(p: *mut u8, size: usize) {
+    std::ptr::write_bytes(p.add(size), RZ_BYTE, RZ);
+}
+
+#[inline]
+unsafe fn inspect(p: *mut u8, size: usize) {
+    let z = std::slice::from_raw_parts(p.add(size), RZ);
+    if z.iter().any(|b| *b != RZ_BYTE) {
+        OVERRUNS.fetch_add(1, SeqCst);
+        OVERRUN_SIZE.store(size, SeqCst);
+    }
+}
+
 unsafe impl GlobalAlloc for SpyAlloc {
     unsafe fn alloc(&self, l: Layout) -> *mut u8 {
+        let Some(pl) = padded(l) else { return std::ptr::null_mut() };
         if !note_alloc(l.size()) {
             return std::ptr::null_mut();
         }
-        System.alloc(l)
+        let p = System.alloc(pl);
+        if !p.is_null() {
+            paint(p, l.size());
+        }
+        p
     }
 
     unsafe fn alloc_zeroed(&self, l: Layout) -> *mut u8 {
+        let Some(pl) = padded(l) else { return std::ptr::null_mut() };
         if !note_alloc(l.size()) {
             return std::ptr::null_mut();
         }
-        System.alloc_zeroed(l)
+        let p = System.alloc_zeroed(pl);
+        if !p.is_null() {
+            paint(p, l.size());
+        }
+        p
     }
 
     unsafe fn dealloc(&self, p: *mut u8, l: Layout) {
+        inspect(p, l.size());
         scan_and_wipe(p, l.size());
         note_free(l.size());
-        System.dealloc(p, l)
+        System.dealloc(p, Layout::from_size_align_unchecked(l.size() + RZ, l.align()))
     }
 
     unsafe fn realloc(&self, p: *mut u8, l: Layout, ns: usize) -> *mut u8 {
+        let Some(npl) = Layout::from_size_align(ns.checked_add(RZ).unwrap_or(usize::MAX), l.align()).ok() else { return std::ptr::null_mut() };
+        inspect(p, l.size());
+        let opl = Layout::from_size_align_unchecked(l.size() + RZ, l.align());
         if !ARMED.load(SeqCst) && !WIPE_ALWAYS.load(SeqCst) {
             if !note_alloc(ns) {
                 return std::ptr::null_mut();
             }
             note_free(l.size());
-            return System.realloc(p, l, ns);
+            let np = System.realloc(p, opl, npl.size());
+            if !np.is_null() {
+                paint(np, ns);
+            }
+            return np;
         }
         if !note_alloc(ns) {
             return std::ptr::null_mut();
         }
-        let np = System.alloc(Layout::from_size_align_unchecked(ns, l.align()));
+        let np = System.alloc(npl);
         if !np.is_null() {
             std::ptr::copy_nonoverlapping(p, np, l.size().min(ns));
+            paint(np, ns);
             scan_and_wipe(p, l.size());
             note_free(l.size());
-            System.dealloc(p, l);
+            System.dealloc(p, opl);
         }
         np
     }
+}
+
+/// Number of released blocks whose red zone had been written to since the last call (and the size of the last one)
+pub fn take_overruns() -> (usize, usize) {
+    (OVERRUNS.swap(0, SeqCst), OVERRUN_SIZE.load(SeqCst))
 }
 
 pub fn clear_patterns() {
